@@ -568,3 +568,278 @@ Proof.
   pose proof (pos_INR i). pose proof (pos_INR j).
   rewrite !Rabs_pos_eq in H by lra. apply Hne. apply INR_eq. lra.
 Qed.
+
+
+(* ------------------------------------------------------------------------------------------------ *)
+(* ROUNDING theorems: the binary64 instance (FOps) of the estimators under uniform weights.          *)
+(* FR x = real value of the float x, ffin x = x is finite, u64 = 2^-53, eta64 = 2^-1075.             *)
+(* ------------------------------------------------------------------------------------------------ *)
+From Coq Require Import Floats.
+From SC Require Import Base.FloatUtil Base.FloatError C04.ProofsFloat.
+
+(* KNNRegressor::predict_for_row after the search, uniform weights, binary64: for ANY neighbour list sr
+   (k = |sr| < 2^53 pairs (index, distance)) the model computes w_sum = k exactly, r = fl(1/k) and the
+   recursive float sum of the k products fl(y_i * r) (`rinv k` is that r).  If the prediction is finite
+   then the k targets are finite and the prediction differs from the exact mean (sum y_i)/k by at most
+   ((1+u)^(k+1) - 1) * ((sum |y_i|)/k + k eta) + k eta   (k+1 roundings per term at most: the division,
+   the product, k-1 additions; eta per product for underflow). *)
+Theorem C04_regressor_uniform_mean_float_error :
+  forall (y : list PrimFloat.float) (sr : list (nat * PrimFloat.float)),
+  let k := length sr in
+  let ys := map (fun p : nat * PrimFloat.float => nth (fst p) y 0%float) sr in
+  (Z.of_nat k < 2 ^ 53)%Z -> ffin (reg_mean FOps y Uniform sr) ->
+  Forall ffin ys /\
+  reg_mean FOps y Uniform sr = fsum (map (fun v => PrimFloat.mul v (rinv k)) ys) /\
+  (Rabs (FR (reg_mean FOps y Uniform sr) - Rsuml (map FR ys) / INR k) <=
+     ((1 + u64) ^ (k + 1) - 1) * (Rsumabs (map FR ys) / INR k + INR k * eta64) + INR k * eta64)%R.
+Proof. exact regressor_uniform_mean_float_error. Qed.
+
+(* the normalising constant: the float sum of k ones is k exactly (k <= 2^53), and r = fl(1/k) is finite,
+   in [2^-53, 1], with relative error u *)
+Theorem C04_uniform_weight_float :
+  forall k : nat, 0 < k -> (Z.of_nat k <= 2 ^ 53)%Z ->
+  ffin (osum FOps (repeat 1%float k)) /\ FR (osum FOps (repeat 1%float k)) = INR k /\
+  rinv k = PrimFloat.div 1%float (osum FOps (repeat 1%float k)) /\
+  ffin (rinv k) /\ (u64 <= FR (rinv k) <= 1)%R /\ (Rabs (FR (rinv k) - / INR k) <= u64 * / INR k)%R.
+Proof.
+  intros k Hk Hb. destruct (wsum_uniform k Hb) as [A B]. destruct (rinv_spec k Hk Hb) as (C & D & E).
+  repeat split; try assumption; apply D.
+Qed.
+
+(* KNNClassifier::predict_for_row after the search, uniform weights, binary64, k = |sr| <= 2^51: the score
+   of a class after m votes is the m-fold float sum r + .. + r, one function g of the COUNT for all
+   classes, strictly increasing on 0..k; so the float vote IS the integer vote `vote_count` (same loop on
+   counters: same winner, same tie-breaking) ... *)
+Theorem C04_classifier_uniform_vote_float_count :
+  forall ncl (y : list nat) (sr : list (nat * PrimFloat.float)),
+  (Z.of_nat (length sr) <= 2 ^ 51)%Z ->
+  clf_vote FOps ncl y Uniform sr = vote_count ncl y (map fst sr).
+Proof. exact classifier_uniform_vote_float_count. Qed.
+
+(* ... hence (labels in range) the predicted class index has the maximal number of votes among the
+   neighbours' labels, it is THE plurality class whenever the plurality is strict, and it equals the
+   exact-arithmetic (ROps) vote on every real neighbour list with the same indices in the same order. *)
+Theorem C04_classifier_uniform_vote_float :
+  forall ncl (y : list nat) (sr : list (nat * PrimFloat.float)),
+  (Z.of_nat (length sr) <= 2 ^ 51)%Z ->
+  (forall p, In p sr -> nth (fst p) y 0 < ncl) ->
+  let c := clf_vote FOps ncl y Uniform sr in
+  let labels := labels_of y (map fst sr) in
+  (forall j, count_occ Nat.eq_dec labels j <= count_occ Nat.eq_dec labels c) /\
+  (forall cs, (forall j, j <> cs -> count_occ Nat.eq_dec labels j < count_occ Nat.eq_dec labels cs) -> c = cs) /\
+  (forall srR : list (nat * R), map fst srR = map fst sr -> clf_vote ROps ncl y Uniform srR = c).
+Proof. exact classifier_uniform_vote_float. Qed.
+
+(* the exact vote under uniform weights is the integer vote too (every k) *)
+Theorem C04_classifier_uniform_vote_exact :
+  forall ncl (y : list nat) (sr : list (nat * R)),
+  clf_vote ROps ncl y Uniform sr = vote_count ncl y (map fst sr).
+Proof. exact classifier_uniform_vote_exact. Qed.
+
+(* non-vacuity: three neighbours with targets 0.1, 2.5, -0.3 (the mean 23/30 is not a binary64 number) *)
+Example C04_regressor_float_instance :
+  let y := [0x1.999999999999ap-4; 7; 2.5; -0x1.3333333333333p-2]%float in
+  let sr := [(0, 1.5%float); (2, 0.25%float); (3, 3%float)] in
+  (Z.of_nat (length sr) < 2 ^ 53)%Z /\ ffin (reg_mean FOps y Uniform sr) /\
+  reg_mean FOps y Uniform sr = 0x1.8888888888888p-1%float /\
+  rinv 3 = 0x1.5555555555555p-2%float.
+Proof. cbv zeta. repeat split; vm_compute; reflexivity. Qed.
+
+(* non-vacuity: five neighbours, labels 2,0,2,1,2 -> class 2 (strict plurality); a tie 1,2 -> the class
+   that reached the maximum first *)
+Example C04_classifier_float_instance :
+  let y := [2; 0; 1; 2; 2; 1] in
+  let sr := [(0, 1.5%float); (1, 0.25%float); (3, 3%float); (2, 0.5%float); (4, 0.75%float)] in
+  (Z.of_nat (length sr) <= 2 ^ 51)%Z /\ (forall p, In p sr -> nth (fst p) y 0 < 3) /\
+  clf_vote FOps 3 y Uniform sr = 2 /\ vote_count 3 y (map fst sr) = 2 /\
+  (forall j, j <> 2 -> count_occ Nat.eq_dec (labels_of y (map fst sr)) j < count_occ Nat.eq_dec (labels_of y (map fst sr)) 2) /\
+  clf_vote FOps 3 y Uniform [(2, 1%float); (0, 2%float)] = 1.
+Proof.
+  cbv zeta. split; [vm_compute; discriminate|]. split.
+  - intros p [<-|[<-|[<-|[<-|[<-|[]]]]]]; cbn; lia.
+  - repeat split; try (vm_compute; reflexivity).
+    intros j Hj. destruct j as [|[|[|j]]]; vm_compute; lia.
+Qed.
+
+
+(* ------------------------------------------------------------------------------------------------ *)
+(* The exhaustive scan in binary64 for GENERAL k.                                                    *)
+(* ------------------------------------------------------------------------------------------------ *)
+From SC Require Import C04.ProofsFloatScan.
+
+(* LinearKNNSearch::find only compares distances: it commutes with every comparison-preserving map f of
+   the distance type (heap machinery - sort, sift_down, heapify - included; axiom-free).  This is the
+   "order embedding" step: the float scan is the image of a scan over a totally preordered key type. *)
+Theorem C04_linear_find_order_embedding :
+  forall (D1 D2 : Type) (lt1 le1 : D1 -> D1 -> bool) (lt2 le2 : D2 -> D2 -> bool) (f : D1 -> D2) (dinf : D1),
+  (forall a b, lt2 (f a) (f b) = lt1 a b) -> (forall a b, le2 (f a) (f b) = le1 a b) ->
+  forall (dq : nat -> D1) n k,
+  linear_find lt2 le2 (f dinf) (fun i => f (dq i)) n k =
+  option_map (map (fun p : nat * D1 => (fst p, f (snd p)))) (linear_find lt1 le1 dinf dq n k).
+Proof. intros D1 D2 lt1 le1 lt2 le2 f dinf. exact (linear_find_map lt1 le1 lt2 le2 f dinf). Qed.
+
+(* a k-nearest set (is_knn: what C04_linear_find_exact guarantees) for an order that strictly separates
+   S from its complement is S (axiom-free) *)
+Theorem C04_knn_set_unique :
+  forall (D : Type) (leb : D -> D -> bool) (dq : nat -> D) n k res (S : list nat),
+  is_knn leb dq n k res -> NoDup S -> length S = k -> (forall s, In s S -> s < n) ->
+  (forall s j, In s S -> j < n -> ~ In j S -> leb (dq j) (dq s) = false) ->
+  Permutation S (map fst res).
+Proof. intros D. exact (@knn_set_unique D). Qed.
+
+(* binary64, sentinel +infinity, ANY metric, ANY 1 <= k: dq i = computed distance from the query to point
+   i (finite for i < n), R_ i = the exact distance, e i = a bound on its rounding error, S = any list of k
+   distinct indices.  If every point of S is closer than every other point by more than the two error
+   bounds, the float scan (the model's HeapSelection included) succeeds and returns exactly the index set
+   S, each index with its computed distance - and so does the exact scan over the reals: same INDEX SET
+   (the order inside the result may differ). *)
+Theorem C04_knn_set_float_robust :
+  forall (dq : nat -> PrimFloat.float) (R_ e : nat -> R) (n k : nat) (S : list nat),
+  NoDup S -> length S = k -> 1 <= k -> (forall s, In s S -> s < n) ->
+  (forall i, i < n -> ffin (dq i) /\ (Rabs (FR (dq i) - R_ i) <= e i)%R) ->
+  (forall s j, In s S -> j < n -> ~ In j S -> (e s + e j < R_ j - R_ s)%R) ->
+  (exists resF, linear_find PrimFloat.ltb PrimFloat.leb infinity dq n k = Some resF /\
+                Permutation S (map fst resF) /\ (forall i d, In (i, d) resF -> d = dq i)) /\
+  (forall dinfR, (forall i, i < n -> (R_ i < dinfR)%R) ->
+     exists resR, linear_find Rltb Rleb dinfR R_ n k = Some resR /\
+                  Permutation S (map fst resR) /\ (forall i d, In (i, d) resR -> d = R_ i)).
+Proof. exact knn_set_float_robust. Qed.
+
+(* non-vacuity: computed distances 3, 1, 4, 2, 9, exact distances larger by 1/8, error bound 1/4, k = 2 *)
+Example C04_knn_set_float_instance :
+  let zs := [3; 1; 4; 2; 9]%Z in
+  let dq := fun i => float_of_Z (nth i zs 0%Z) in
+  let R_ := fun i => (IZR (nth i zs 0%Z) + / 8)%R in
+  let e := fun _ : nat => (/ 4)%R in
+  let S := [1; 3] in
+  NoDup S /\ length S = 2 /\ (forall s, In s S -> s < 5) /\
+  (forall i, i < 5 -> ffin (dq i) /\ (Rabs (FR (dq i) - R_ i) <= e i)%R) /\
+  (forall s j, In s S -> j < 5 -> ~ In j S -> (e s + e j < R_ j - R_ s)%R) /\
+  linear_find PrimFloat.ltb PrimFloat.leb infinity dq 5 2 = Some [(3, 2%float); (1, 1%float)].
+Proof.
+  cbv zeta. split; [repeat constructor; cbn [In]; lia|]. split; [reflexivity|]. split.
+  { intros s [<-|[<-|[]]]; lia. }
+  split; [|split; [|vm_compute; reflexivity]].
+  - assert (G : forall z, (0 <= z < 2 ^ 53)%Z ->
+                ffin (float_of_Z z) /\ (Rabs (FR (float_of_Z z) - (IZR z + / 8)) <= / 4)%R).
+    { intros z Hz. destruct (float_of_Z_exact z Hz) as [F E]. split; [exact F|]. rewrite E.
+      replace (IZR z - (IZR z + / 8))%R with (- / 8)%R by ring. rewrite Rabs_Ropp, Rabs_pos_eq; lra. }
+    intros i Hi. apply G. do 5 (destruct i as [|i]; [cbn [nth]; lia|]). lia.
+  - intros s j Hs Hj Hn. destruct Hs as [<-|[<-|[]]];
+      (do 5 (destruct j as [|j]; [try (exfalso; apply Hn; cbn [In]; tauto); cbn [nth]; lra|])); exfalso; lia.
+Qed.
+
+
+(* ------------------------------------------------------------------------------------------------ *)
+(* binary64 estimators END TO END on the exhaustive scan (uniform weights): search + mean / vote.    *)
+(* ------------------------------------------------------------------------------------------------ *)
+From SC Require Import C04.ProofsFloatE2E.
+
+(* KNNRegressor (LinearSearch, uniform weights) in binary64, one query row: under the separation margin of
+   C04_knn_set_float_robust the prediction succeeds, and if it is finite the targets of the true k nearest
+   rows S are finite and the prediction is within the bound of C04_regressor_uniform_mean_float_error of
+   their exact mean (the heap order of the result does not matter: the bound is symmetric in S). *)
+Theorem C04_knn_regressor_float_end_to_end :
+  forall (dq : nat -> PrimFloat.float) (R_ e : nat -> R) (n k : nat) (S : list nat)
+         (y : list PrimFloat.float) (dmax : PrimFloat.float),
+  NoDup S -> length S = k -> 1 <= k -> (Z.of_nat k < 2 ^ 53)%Z -> (forall s, In s S -> s < n) ->
+  (forall i, i < n -> ffin (dq i) /\ (Rabs (FR (dq i) - R_ i) <= e i)%R) ->
+  (forall s j, In s S -> j < n -> ~ In j S -> (e s + e j < R_ j - R_ s)%R) ->
+  exists v, reg_predict_row FOps dmax infinity (SLinear n) y Uniform k dq = Some v /\
+    (ffin v ->
+     let ys := map (fun s => FR (nth s y 0%float)) S in
+     Forall (fun s => ffin (nth s y 0%float)) S /\
+     (Rabs (FR v - Rsuml ys / INR k) <=
+        ((1 + u64) ^ (k + 1) - 1) * (Rsumabs ys / INR k + INR k * eta64) + INR k * eta64)%R).
+Proof. exact knn_regressor_float_end_to_end. Qed.
+
+(* KNNClassifier (LinearSearch, uniform weights) in binary64, one query row, k <= 2^51: under the same
+   margin the predicted class index has the maximal number of votes among the labels of the true k nearest
+   rows S; if one class has strictly more votes than every other, the binary64 classifier and the exact
+   classifier (ROps on the exact distances) both predict it. *)
+Theorem C04_knn_classifier_float_end_to_end :
+  forall (dq : nat -> PrimFloat.float) (R_ e : nat -> R) (n k : nat) (S : list nat)
+         (classes : list PrimFloat.float) (y : list nat) (dmax : PrimFloat.float),
+  NoDup S -> length S = k -> 1 <= k -> (Z.of_nat k <= 2 ^ 51)%Z -> (forall s, In s S -> s < n) ->
+  (forall s, In s S -> nth s y 0 < length classes) ->
+  (forall i, i < n -> ffin (dq i) /\ (Rabs (FR (dq i) - R_ i) <= e i)%R) ->
+  (forall s j, In s S -> j < n -> ~ In j S -> (e s + e j < R_ j - R_ s)%R) ->
+  let labels := labels_of y S in
+  exists c, clf_predict_row FOps dmax infinity (SLinear n) classes y Uniform k dq = Some (nth c classes 0%float) /\
+    (forall j, count_occ Nat.eq_dec labels j <= count_occ Nat.eq_dec labels c) /\
+    (forall cs, (forall j, j <> cs -> count_occ Nat.eq_dec labels j < count_occ Nat.eq_dec labels cs) ->
+       c = cs /\
+       forall (classesR : list R) (dmaxR dinfR : R), length classesR = length classes ->
+         (forall i, i < n -> (R_ i < dinfR)%R) ->
+         clf_predict_row ROps dmaxR dinfR (SLinear n) classesR y Uniform k R_ = Some (nth cs classesR 0%R)).
+Proof. exact knn_classifier_float_end_to_end. Qed.
+
+(* non-vacuity on the data of C04_knn_set_float_instance (its hypotheses are the search hypotheses here):
+   targets 0.1 and -0.3 at rows 1 and 3 -> finite mean (-0.1 up to rounding); labels 1,1 at rows 1,3 -> class 1 *)
+Example C04_knn_float_end_to_end_instance :
+  let zs := [3; 1; 4; 2; 9]%Z in
+  let dq := fun i => float_of_Z (nth i zs 0%Z) in
+  let yr := [7; 0x1.999999999999ap-4; 2.5; -0x1.3333333333333p-2; 1]%float in
+  let yc := [0; 1; 2; 1; 0] in
+  (Z.of_nat 2 < 2 ^ 53)%Z /\ (Z.of_nat 2 <= 2 ^ 51)%Z /\ (forall s, In s [1; 3] -> nth s yc 0 < 3) /\
+  reg_predict_row FOps 0%float infinity (SLinear 5) yr Uniform 2 dq = Some (-0x1.9999999999999p-4)%float /\
+  ffin (-0x1.9999999999999p-4)%float /\
+  clf_predict_row FOps 0%float infinity (SLinear 5) [10; 20; 30]%float yc Uniform 2 dq = Some 20%float /\
+  (forall j, j <> 1 -> count_occ Nat.eq_dec (labels_of yc [1; 3]) j < count_occ Nat.eq_dec (labels_of yc [1; 3]) 1).
+Proof.
+  cbv zeta. split; [vm_compute; reflexivity|]. split; [vm_compute; discriminate|]. split.
+  { intros s [<-|[<-|[]]]; cbn; lia. }
+  split; [vm_compute; reflexivity|]. split; [reflexivity|]. split; [vm_compute; reflexivity|].
+  intros j Hj. destruct j as [|[|j]]; vm_compute; lia.
+Qed.
+
+
+(* ------------------------------------------------------------------------------------------------ *)
+(* The exhaustive scan in binary64, general k, Euclidean metric (error bounds from C17 / C12).       *)
+(* ------------------------------------------------------------------------------------------------ *)
+From SC Require C17.ProofsFloat.
+From SC Require Import C12.ProofsFloatKnn C04.ProofsFloatEuclid.
+
+(* Euclidian::distance in binary64 (euclidF = sqrt of the float squared-distance fold) against the exact
+   Euclidean distance of the same float points (euclidR): rows of the query's length p, finite computed
+   distances, no underflow in the squared differences (diff_normal_b).  If the k points of S are closer
+   than all others with relative margin (1+u)^(p+3) - 1 on the sum of the two distances, the float scan
+   and the exact scan return the index set S.  Generalises C12_knn1_euclid_float_robust to every k. *)
+Theorem C04_knn_set_euclid_float_robust :
+  forall (data : list (list PrimFloat.float)) (q : list PrimFloat.float) (k : nat) (S : list nat),
+  let n := length data in
+  let p := length q in
+  let dq := fun i => euclidF q (nth i data []) in
+  let R_ := fun i => euclidR (map FR q) (map FR (nth i data [])) in
+  NoDup S -> length S = k -> 1 <= k -> (forall s, In s S -> s < n) ->
+  (forall i, i < n -> length (nth i data []) = p /\ ffin (dq i) /\
+                      C17.ProofsFloat.diff_normal_b q (nth i data []) = true) ->
+  (forall s j, In s S -> j < n -> ~ In j S -> (Eu (p + 3) * (R_ s + R_ j) < R_ j - R_ s)%R) ->
+  (exists resF, linear_find PrimFloat.ltb PrimFloat.leb infinity dq n k = Some resF /\
+                Permutation S (map fst resF) /\ (forall i d, In (i, d) resF -> d = dq i)) /\
+  (forall dinfR, (forall i, i < n -> (R_ i < dinfR)%R) ->
+     exists resR, linear_find Rltb Rleb dinfR R_ n k = Some resR /\
+                  Permutation S (map fst resR) /\ (forall i d, In (i, d) resR -> d = R_ i)).
+Proof. exact knn_set_euclid_float_robust. Qed.
+
+(* non-vacuity: data points (0.1, 0.2), (5.3, 4.1), (-3.7, 6.9), query (5.1, 4.4), k = 2, S = {0, 1} *)
+Example C04_knn_set_euclid_float_instance :
+  let n := length knn_data in
+  let p := length knn_q in
+  let dq := fun i => euclidF knn_q (nth i knn_data []) in
+  let R_ := fun i => euclidR (map FR knn_q) (map FR (nth i knn_data [])) in
+  let S := [0; 1] in
+  NoDup S /\ length S = 2 /\ (forall s, In s S -> s < n) /\
+  (forall i, i < n -> length (nth i knn_data []) = p /\ ffin (dq i) /\
+                      C17.ProofsFloat.diff_normal_b knn_q (nth i knn_data []) = true) /\
+  (forall s j, In s S -> j < n -> ~ In j S -> (Eu (p + 3) * (R_ s + R_ j) < R_ j - R_ s)%R) /\
+  map fst (match linear_find PrimFloat.ltb PrimFloat.leb infinity dq n 2 with Some r => r | None => [] end) = [0; 1].
+Proof.
+  cbv zeta. split; [repeat constructor; cbn [In]; lia|]. split; [reflexivity|]. split.
+  { intros s [<-|[<-|[]]]; cbn; lia. }
+  split; [|split; [|vm_compute; reflexivity]].
+  - intros i Hi. destruct i as [|[|[|i]]]; [| | |cbn in Hi; lia]; repeat split; vm_compute; reflexivity.
+  - intros s j Hs Hj Hn. destruct Hs as [<-|[<-|[]]];
+      (destruct j as [|[|[|j]]]; [exfalso; apply Hn; cbn [In]; tauto | exfalso; apply Hn; cbn [In]; tauto | | cbn in Hj; lia]);
+      knn_goal.
+Qed.
